@@ -173,6 +173,13 @@ class Ctx:
         with open(os.path.join(EVID, "%s.json" % self.pid), "w") as f:
             json.dump(ev, f, indent=1, sort_keys=True)
         if self.violations:
+            agg = {}
+            for v in self.violations:
+                key = v["clause"] + " " + json.dumps(v["where"], sort_keys=True)
+                agg[key] = agg.get(key, 0) + 1
+            os.makedirs(OUT, exist_ok=True)
+            with open(os.path.join(OUT, "violations-%s.json" % self.pid), "w") as f:
+                json.dump(dict(summary=agg, first=self.violations[:200]), f, indent=1)
             seen = set()
             for v in self.violations:
                 key = (v["clause"], json.dumps(v["where"], sort_keys=True))
